@@ -1456,6 +1456,9 @@ class UserSessionManager(Service, discriminator="user-session-manager"):
             self.local_session = None
 
         if not local and remote_session_id:
+            if remote_session_id not in self.remote_sessions:
+                self.sys_log.info(f"{self.name}: Cannot log out unknown remote session {remote_session_id}")
+                return False
             self.parent.terminal._disconnect(remote_session_id)
             session = self.remote_sessions.pop(remote_session_id)
         if session:
